@@ -15,6 +15,7 @@ import AutosarVerif.Gen.NamesEnum
 import AutosarVerif.Gen.Versions
 import AutosarVerif.Gen.SpecData
 import AutosarVerif.Model.Regex
+import AutosarVerif.Model.CData
 import AutosarVerif.Gen.RegexStrings
 import AutosarVerif.Gen.DfaData
 import Driver.Proto
@@ -71,6 +72,21 @@ def diffSearch (d : Rx.Dfa) (r : Rx.Re) : Option (List Nat × Bool × Bool) :=
           else (q', r', b :: acc) :: a) []
         go fuel (rest ++ succs.reverse) (seen ++ succs.map fun (q, r, _) => (q, r))
   go 20000 [(0, r, [])] [(0, r)]
+
+def hex16 (n : Nat) : String :=
+  String.ofList ((List.range 16).reverse.map fun i => hexDigit ((n >>> (4 * i)) % 16))
+
+def isNaNBits (b : Nat) : Bool := (b >>> 52) % 2048 == 2047 && b % (2 ^ 52) != 0
+
+def showF64 : Option Nat → String
+  | some b => if isNaNBits b then "ok nan" else s!"ok {hex16 b}"
+  | none => "none"
+
+def intTyOf (w : String) : Option CData.IntTy :=
+  match w.toList with
+  | 'u' :: r => (String.ofList r).toNat?.map fun b => ⟨false, b⟩
+  | 's' :: r => (String.ofList r).toNat?.map fun b => ⟨true, b⟩
+  | _ => none
 
 def showOptNat : Option Nat → String
   | some n => s!"ok {n}"
@@ -131,6 +147,51 @@ def answer (S : Spec) (ws : List String) : String :=
         | some (w, a, b) => s!"ok {hexOrDash (w.map UInt8.ofNat)} dfa={a} regex={b}"
         | none => "none"
       | _, _ => "none"
+    | none => "bad-op"
+  | ["parse_int", w, h] =>
+    match intTyOf w, bytesOfHex h with
+    | some T, some b => match CData.parseInteger T b with
+      | some v => s!"ok {v}"
+      | none => "none"
+    | _, _ => "bad-op"
+  | ["parse_float", h] =>
+    match bytesOfHex h with
+    | some b => showF64 (CData.parseFloat b)
+    | none => "bad-op"
+  | ["parse_bool", h] =>
+    match bytesOfHex h with
+    | some b => match CData.parseBool b with
+      | some v => s!"ok {v}"
+      | none => "none"
+    | none => "bad-op"
+  | ["load_float", h] =>
+    -- strict load of a FLOAT-typed leaf holding this text (no white space, no entities): `str::parse::<f64>`
+    match bytesOfHex h with
+    | some [] => "ok other"
+    | some b => match CData.parseF64 b with
+      | some v => showF64 (some v)
+      | none => "err"
+    | none => "bad-op"
+  | ["load_uint", h] =>
+    match bytesOfHex h with
+    | some [] => "ok other"
+    | some b => match CData.parseU64 b with
+      | some v => s!"ok {v}"
+      | none => "err"
+    | none => "bad-op"
+  | ["to_dec", n] =>
+    match n.toNat? with
+    | some n => s!"ok {hexOrDash (CData.toDec n)}"
+    | none => "bad-op"
+  | ["escape", h] =>
+    match bytesOfHex h with
+    | some b => s!"ok {hexOrDash (CData.escape b)}"
+    | none => "bad-op"
+  | ["unescape", h] =>
+    match bytesOfHex h with
+    | some b => match CData.unescape b with
+      | some u => s!"ok {hexOrDash u}"
+      | none => "err"
     | none => "bad-op"
   | ["ver_parse", h] =>
     match bytesOfHex h with
